@@ -171,7 +171,7 @@ def _json_contract(fname):
                 return z3.BoolVal(issubclass(v.cls, g.Error)) if k == "raise" else z3.BoolVal(True)
             return [Case("str", [s], post, symbols={"s": s}, models={json.loads: m_loads}, inline=inline,
                          replay=lambda w: {"target": "bounded.replay_helpers:json_escape", "args": [fname]},
-                         confirm=lambda w, out: out.get("kind") != "return" or out.get("value") is not True)]
+                         confirm=battery_confirm)]
     JF.__name__ = JF.id
     return register(JF)
 
